@@ -528,6 +528,70 @@ theorem send_step {s s' : State} {frm to : Addr} {ids : List ScopeId}
         · simp only [hd, if_false] at hfin
           rw [hfin.1, ho.1]
 
+/-! ### marker MsgWithdraw -/
+
+theorem mwithdraw_step {s s' : State} {marker admin to : Addr} {ids : List ScopeId}
+    (hinv : Inv s) (h : markerWithdraw s marker admin to ids = .ok s') :
+    Inv s' ∧ GoodStep s .mwithdraw [admin] s' ∧ (∀ d, supply s'.ledger d = supply s.ledger d) := by
+  unfold markerWithdraw at h
+  split at h
+  · simp at h
+  · rename_i hvalid
+    simp only [Bool.or_eq_true, decide_eq_true_eq, not_or, Bool.not_eq_true', Bool.not_eq_false] at hvalid
+    obtain ⟨⟨⟨_, hto⟩, _⟩, hnd⟩ := hvalid
+    have hnd' : ids.Nodup := nodupB_iff.mp (by simpa using hnd)
+    cases hm : findMarker s marker with
+    | none => rw [hm] at h; simp at h
+    | some m =>
+      rw [hm] at h; simp only at h
+      split at h
+      · simp at h
+      · rename_i hw
+        split at h
+        · simp at h
+        · rename_i hdp
+          split at h
+          · simp at h
+          · split at h
+            · simp at h
+            · rename_i hf
+              simp at h; subst h
+              have hf' : hasFunds s.ledger marker ids = true := by simpa using hf
+              have hw' : m.has admin .withdraw = true := by simpa using hw
+              have hdp' : depositOk s [admin] marker to = true := by simpa using hdp
+              refine ⟨?_, ?_, ?_⟩
+              · intro d
+                obtain ⟨o, ho, hne, hsc⟩ := hinv d
+                obtain ⟨hsrc, hfin⟩ := holderIs_move (b := to) hnd' hf' ho
+                by_cases hd : d ∈ ids
+                · simp only [hd, if_true] at hfin
+                  refine ⟨some to, hfin, fun e => hto (by injection e), fun _ => ?_⟩
+                  exact hsc (by rw [hsrc hd]; rfl)
+                · simp only [hd, if_false] at hfin
+                  exact ⟨o, hfin, hne, hsc⟩
+              · intro d o o' ho ho' hne
+                obtain ⟨hsrc, hfin⟩ := holderIs_move (b := to) hnd' hf' ho
+                by_cases hd : d ∈ ids
+                · simp only [hd, if_true] at hfin
+                  have : o' = some to := holderIs_unique ho' hfin
+                  subst this
+                  have := hsrc hd; subst this
+                  refine ⟨fun x hx => ?_, fun x hx => ?_⟩
+                  · injection hx with hx; subst hx
+                    exact ⟨m, hm, admin, by simp, hw'⟩
+                  · injection hx with hx; subst hx
+                    exact depositP_of_agents hdp' (by simp)
+                · simp only [hd, if_false] at hfin
+                  exact absurd (holderIs_unique hfin ho') hne
+              · intro d
+                obtain ⟨o, ho, _, _⟩ := hinv d
+                obtain ⟨hsrc, hfin⟩ := holderIs_move (b := to) hnd' hf' ho
+                by_cases hd : d ∈ ids
+                · simp only [hd, if_true] at hfin
+                  rw [hfin.1, ho.1, hsrc hd]; rfl
+                · simp only [hd, if_false] at hfin
+                  rw [hfin.1, ho.1]
+
 /-! ### environment operations -/
 
 theorem inv_of_ledger_scopes_eq {s s' : State} (hinv : Inv s) (hl : s'.ledger = s.ledger)
